@@ -163,3 +163,115 @@ def grid_update(c, interpolation_mode):
     (KISS-GP re-grids in evaluation mode), and install the new grid (the C03 contract, shared)"""
     from contracts import C03_caches as c03
     return c03.grid_update(c, interpolation_mode)
+
+
+# ------------------------------------------------------------------ inducing-point (SGPR) kernel ------------------------------------
+IPK = "gpytorch.kernels.inducing_point_kernel.InducingPointKernel"
+IPL = "gpytorch.mlls.inducing_point_kernel_added_loss_term.InducingPointKernelAddedLossTerm"
+
+
+@case("C09", clause="nystrom", name="inducing_point_kernel", expand=lambda ix: [(mode,) for mode in ("cross", "same_eval_corrected", "same_train")], replay=lambda *a: replay_c09(*a),
+      functions=[f"{IPK}._get_covariance", f"{IPK}._inducing_inv_root", f"{IPK}._inducing_mat", f"{IPK}.forward"], timeout=300)
+def inducing_point_kernel(c, mode):
+    """with the upper Cholesky factor U of Kzz (callee: U^T U = Kzz) and R = solve_triangular(U, I) = U^-1 (callee):
+        k(x1, x2) = (K_{x1 z} R) (K_{x2 z} R)^T                                                          (= K_{x1 z} Kzz^-1 K_{z x2}: Lean lemma lean/Nystrom.lean)
+      x1 == x2 in evaluation mode with the diagonal correction: + diag(max(k_base(x, x) - diag(Q), 0));  training mode: Q itself, and the added loss term
+      is built from N(0, diag k_base(x, x)), N(0, Q) and the kernel's likelihood."""
+    it, ctx = c.it, c.ctx
+    n1, n2, mz, d = c.size("n1"), c.size("n2"), c.size("m"), c.size("d")
+    c.assume(z3.And(n1.t >= 1, n2.t >= 1, mz.t >= 1))
+    same = mode != "cross"
+    X1 = sym_tensor("x1", [n1.t, d.t])
+    X2 = X1 if same else sym_tensor("x2", [n2.t, d.t])
+    Z = sym_tensor("Z", [mz.t, d.t])
+    K1, K2 = sym_tensor("K_x1z", [n1.t, mz.t]), sym_tensor("K_x2z", [n2.t, mz.t])
+    Kzz = sym_tensor("Kzz", [mz.t, mz.t])
+    kd = sym_tensor("kdiag_x1", [n1.t])
+    U = sym_tensor("U_chol_upper", [mz.t, mz.t])
+    R = sym_tensor("R_inverse_root", [mz.t, mz.t])
+    rec = {"chol": [], "tri": [], "base": []}
+
+    def base_call(a, b=None, diag=False, **k):
+        dg = isinstance(diag, VBool) and diag.concrete() is True
+        rec["base"].append((a, b, dg))
+        if dg:
+            return kd
+        if a is Z and (b is Z or b is None):
+            return Kzz
+        if b is Z:
+            return K1 if a is X1 else K2
+        return sym_tensor("unexpected_base_kernel_call", [n1.t, n1.t])
+
+    base = Stub("base_kernel", methods={"__call__": base_call}, isa=("Kernel", "Module"))
+    lik = Stub("likelihood", isa=("GaussianLikelihood", "Likelihood", "Module"))
+    o = module_obj(c, IPK, "kernel", training=VBool(mode == "same_train"))
+    o.fields["_modules"].d["base_kernel"] = base
+    o.fields["_modules"].d["likelihood"] = lik
+    o.fields["likelihood"] = lik
+    o.fields["_parameters"].d["inducing_points"] = Z
+    o.fields["_added_loss_terms"].d["inducing_point_loss_term"] = NONE
+    it.optable["linear_operator.utils.cholesky.psd_safe_cholesky"] = lambda it_, ctx_, a, k: (rec["chol"].append((a[0], k.get("upper"))), U)[1]
+    it.optable["torch.linalg.solve_triangular"] = lambda it_, ctx_, a, k: (rec["tri"].append((a[0], a[1], k.get("upper"))), R)[1]
+    it.optable["hook.torch.equal"] = lambda it_, ctx_, a, k: VBool(a[0] is a[1])
+    c.ctx.classattrs[("gpytorch.settings.sgpr_diagonal_correction", "_state")] = TRUE
+    res = it.call(ctx, c.getattr(o, "forward"), [X1, X2], {})
+    i, j, a_, b_ = ivar("i"), ivar("j"), ivar("a"), ivar("b")
+    c.assume(z3.And(i >= 0, i < n1.t, j >= 0, j < (n1.t if same else n2.t), a_ >= 0, a_ < mz.t, b_ >= 0, b_ < mz.t))
+    ok = len(rec["chol"]) == 1 and len(rec["tri"]) == 1
+    c.prove("nystrom.one_cholesky_one_triangular_solve", z3.BoolVal(ok))
+    if not ok:
+        return
+    cm, up = rec["chol"][0]
+    c.prove("nystrom.factorised_matrix_is_Kzz_upper", z3.And(z3.BoolVal(isinstance(up, VBool) and up.concrete() is True and len(cm.dims) == 2), cm.at_dims([a_, b_]) == Kzz.at([a_, b_])) if len(cm.dims) == 2 else z3.BoolVal(False))
+    tm, eye, up2 = rec["tri"][0]
+    c.prove("nystrom.inverse_root_is_solve_triangular_of_the_factor_against_identity", z3.And(z3.BoolVal(tm is U and isinstance(up2, VBool) and up2.concrete() is True and len(eye.dims) == 2),
+                                                                                           eye.dims[0].size == mz.t, eye.at_dims([a_, b_]) == z3.If(a_ == b_, z3.RealVal(1), z3.RealVal(0))) if len(eye.dims) == 2 else z3.BoolVal(False))
+    KA = K1
+    KB = K1 if same else K2
+    Q = lambda i_, j_: mk_sum(lambda p: mk_sum(lambda s_: KA.at([i_, s_]) * R.at([s_, p]), mz.t) * mk_sum(lambda t_: KB.at([j_, t_]) * R.at([t_, p]), mz.t), mz.t)  # noqa: E731
+    okr = isinstance(res, VTensor) and len(res.dims) == 2
+    if not okr:
+        c.fail("nystrom.result_is_a_matrix", str(type(res)))
+        return
+    if mode == "same_eval_corrected":
+        # k_base(x, x) - diag(Q) is a Schur complement, >= 0 for a valid kernel: the clamp only guards against rounding, so both readings are accepted
+        corr = kd.at([i]) - Q(i, i)
+        got = res.at_dims([i, j])
+        val = z3.Or(got == Q(i, j) + z3.If(i == j, z3.If(corr < 0, z3.RealVal(0), corr), z3.RealVal(0)), got == Q(i, j) + z3.If(i == j, corr, z3.RealVal(0)))
+    else:
+        val = res.at_dims([i, j]) == Q(i, j)
+    c.prove("nystrom.value", z3.And(res.dims[0].size == n1.t, res.dims[1].size == (n1.t if same else n2.t), val))
+    if mode == "same_train":
+        term = o.fields["_added_loss_terms"].d.get("inducing_point_loss_term")
+        okt = isinstance(term, VObj) and term.cls.name == "InducingPointKernelAddedLossTerm"
+        c.prove("nystrom.training_registers_the_trace_term", z3.BoolVal(okt and term.fields.get("likelihood") is lik))
+        if okt:
+            pd, vd = term.fields["prior_dist"], term.fields["variational_dist"]
+            pc = pd.fields.get("_covar") if pd.fields.get("_covar") is not None else pd.fields.get("covariance_matrix")
+            vc = vd.fields.get("_covar") if vd.fields.get("_covar") is not None else vd.fields.get("covariance_matrix")
+            c.prove("nystrom.trace_term_distributions", z3.And(pc.at_dims([i, j]) == z3.If(i == j, kd.at([i]), z3.RealVal(0)), vc.at_dims([i, j]) == Q(i, j), pd.fields["loc"].at_dims([i]) == 0, vd.fields["loc"].at_dims([i]) == 0))
+    c.ctx.assumptions.add("Lean 4.33 kernel and Mathlib are trusted for lean/Nystrom.lean (real matrices)")
+    c.prove_lemma("nystrom.root_product_is_the_nystrom_matrix", "Nystrom.lean", "nystrom_root")
+
+
+@case("C09", clause="titsias_trace_term", name="sgpr_trace_term", expand=lambda ix: [()], replay=lambda *a: replay_c09(*a), functions=[f"{IPL}.loss"])
+def sgpr_trace_term(c):
+    """InducingPointKernelAddedLossTerm.loss = -1/2 sum_i (Kxx[i, i] - Q[i, i]) / noise_i  (Titsias' regularisation trace term; with C02's MLL contract the training
+    objective is (log N(y; m, Q + noise) + this term + priors) / n, the collapsed bound per data point)"""
+    it, ctx = c.it, c.ctx
+    n = c.size("n")
+    c.assume(n.t >= 1)
+    from contracts.dist_spec import make_mvn
+    pd, vd = make_mvn(c, "prior", [], n.t), make_mvn(c, "nystrom", [], n.t)
+    noise = sym_tensor("noise_diag", [n.t])
+    calls = []
+    lik = Stub("likelihood", methods={"_shaped_noise_covar": lambda shape, *p, **k: (calls.append(shape), E.diag_embed(c.ctx, noise))[1]}, isa=("GaussianLikelihood", "Likelihood"))
+    ci = it.index.get_class(IPL)
+    o = VObj(ci, label="trace_term")
+    o.fields.update({"prior_dist": pd, "variational_dist": vd, "likelihood": lik})
+    res = it.call(ctx, c.getattr(o, "loss"), [], {})
+    from engine import dom_real
+    Kp, Kq = pd.fields["_covar"], vd.fields["_covar"]
+    want = z3.RealVal("-1/2") * mk_sum(lambda k: dom_real.rdiv(c.ctx, Kp.at([k, k]) - Kq.at([k, k]), noise.at([k])), n.t)
+    c.prove("trace_term.noise_requested_for_the_data_shape", z3.BoolVal(len(calls) == 1))
+    c.prove("trace_term.value", res.at_dims([]) == want if isinstance(res, VTensor) and len(res.dims) == 0 else z3.BoolVal(False))
